@@ -456,11 +456,23 @@ class Scenario:
                 else:
                     r = await self.app.unregister(name)
                 self.res[c] = 'T' if r is True else 'F' if r is False else 'other:%r' % (r,)
+            except aio.CancelledError:
+                self.res[c] = 'canc'          # only the harness cancels (cancel()); anywhere else the spec has no explanation
             except BaseException as e:  # noqa
                 self.res[c] = 'exc'
                 self.res[('exc', c)] = '%s: %s' % (type(e).__name__, e)
         self.tasks[c] = self.sess.spawn(go())
         self._run(d)
+
+    def cancel(self, c, d=0):
+        """the caller cancels call c while it is in progress (task.cancel(), what asyncio.wait_for / a TaskGroup do), then
+        the loop runs until nothing is ready: the call ends, the calls behind it go on."""
+        self.tasks[c].cancel()
+        self._run(d)
+
+    def pending(self):
+        """user calls in progress"""
+        return [c for c, t in self.tasks.items() if not t.done()]
 
     def tick(self):
         self.clock += 1
